@@ -1,0 +1,17 @@
+//go:build verif
+
+// Contracts for package sfnt, checked by /verif/engine (gvc).  This file
+// contains comments only; it is compiled only with the "verif" build tag.
+package sfnt
+
+// makeVariant returns a name that was not in use and marks it (and only it)
+// as used.  The search over candidate strings is unbounded: termination is
+// not claimed.
+//@ func makeVariant(used map[string]bool, basename string) (name string)   props: C20
+//@   requires used != nil
+//@   ensures !old(used[name]) && used[name]
+//@   ensures forall s string :: s != name ==> used[s] == old(used[s])
+//@   modifies used[*]
+//@   loop 0
+//@     invariant forall s string :: used[s] == old(used[s])
+//@     decreases *
